@@ -1010,7 +1010,10 @@ class TxUnderTest(object):
             tp.script, tq.script = tq.script, tp.script
             tp.witness, tq.witness = tq.witness, tp.witness
         elif m == "forget":
-            tx.unspents[p] = None
+            if b == 0:
+                tx.unspents[p] = None
+            else:
+                del tx.unspents[p:]          # the list of spent outputs is now shorter than the inputs
         elif m in ("ss_pushdata", "wit_attach", "wit_append", "ss_prepend"):
             self._unlocking_mutation(tx.txs_in[p], m, b)
         elif m == "revert":
@@ -1052,6 +1055,7 @@ class TxUnderTest(object):
         t = tx.txs_in[i]
         u = tx.unspents[i]
         prevouts = [["", 0] if x is None else [bytes(x.script).hex(), x.coin_value] for x in tx.unspents]
+        prevouts += [["", 0]] * (len(tx.txs_in) - len(prevouts))
         return SC.mk_case("spend", bytes(t.script), bytes(u.script), [bytes(w) for w in t.witness], flags=["P2SH", "WITNESS"],
                           version=tx.version & 0x7FFFFFFF, locktime=tx.lock_time, sequence=t.sequence, amount=u.coin_value,
                           tx={"hex": tx.as_hex(), "idx": i, "prevouts": prevouts})
@@ -1070,6 +1074,23 @@ class TxUnderTest(object):
             out["fresh"] = [bool(f.is_solution_ok(i)) for i in range(n)]
             out["fresh_bad"] = f.bad_solution_count()
             out["again"] = [bool(tx.is_solution_ok(i)) for i in reversed(range(n))][::-1]
+            # the checker's own entry point: ONE checker, the contexts of all inputs prepared first, checked afterwards
+            # (only for inputs whose spent output is known: the checker API has no notion of an unknown one)
+            from pycoin.coins.SolutionChecker import ScriptError
+            sc = tx.SolutionChecker(tx)
+            known = [i < len(tx.unspents) and tx.unspents[i] is not None for i in range(n)]
+            ctxs = [sc.tx_context_for_idx(i) if known[i] else None for i in range(n)]
+            via = []
+            for i in range(n):
+                if not known[i]:
+                    via.append(None)
+                    continue
+                try:
+                    sc.check_solution(ctxs[i])
+                    via.append(True)
+                except ScriptError:
+                    via.append(False)
+            out["checker"] = via
         except Exception as e:  # noqa
             import traceback
             out["exc"] = "%s: %s" % (type(e).__name__, e)
